@@ -148,6 +148,13 @@ pub fn main(args: &Args) {
                 "#65535", "#-32768", "-#2", "x+4", "0x4", "00x4", "0#2", "#", "0", "-0", "+0", "0x", "0b", "é", "x😀",
             ];
             let mut lines = Vec::new();
+            for l in ["Foo", "bar", "_x", "L0", "r_"] {
+                for off in ["+32767", "+32768", "+40000", "+65534", "+65535", "+65536", "+x7fff", "+x8000", "+xffff", "+x10000", "-32768", "-32769", "-65535", "-x8000", "-x8001"] {
+                    for p in ["goto ", "move ", "break add ", "print ", "assembly "] {
+                        lines.push(if p == "move " { format!("move {}{} 5", l, off) } else { format!("{}{}{}", p, l, off) });
+                    }
+                }
+            }
             for e in EDGE {
                 for p in ["move r1 ", "goto ", "print ", "goto ^", "goto Foo+", "goto Foo-", "print bar", "move "] {
                     lines.push(format!("{}{}", p, e));
